@@ -4,8 +4,8 @@ from pyvc.contracts import Registry
 
 def build_registry() -> Registry:
     reg = Registry()
-    from . import c_icao, c_wmo, c_data, c_utils, c_scaler, c_screen, c_prms, c_plots, lemmas
-    for mod in (lemmas, c_icao, c_wmo, c_data, c_utils, c_scaler, c_screen, c_prms, c_plots):
+    from . import c_icao, c_wmo, c_data, c_utils, c_scaler, c_screen, c_prms, c_plots, c_layer, lemmas
+    for mod in (lemmas, c_icao, c_wmo, c_data, c_utils, c_scaler, c_screen, c_prms, c_plots, c_layer):
         mod.register(reg)
     c_data.finalize(reg)
     return reg
